@@ -66,7 +66,8 @@ type dbCase struct {
 	Kind    string  `json:"kind"` // "db"
 	Cid     int     `json:"cmp"`
 	Opts    optSpec `json:"opts"`
-	Settled bool    `json:"settled"` // wait for compactions after every write
+	Settled bool    `json:"settled"`          // wait for compactions after every write
+	Window  bool    `json:"window,omitempty"` // run with the flush-commit window held open (window.go); one at a time
 	Ops     []op    `json:"ops"`
 }
 
@@ -581,6 +582,12 @@ func (x *dbExec) settleAlways() {
 // run executes the program; returns false when a violation was recorded
 func (x *dbExec) run() (ok bool) {
 	ok = true
+	var win *windowCtl
+	inWindow, winDone := false, false
+	if x.c.Window {
+		win = installWindowHook()
+		defer removeWindowHook(win)
+	}
 	x.vs = vstor.New(false)
 	x.stor = x.vs
 	x.model = map[string][]byte{}
@@ -605,6 +612,9 @@ func (x *dbExec) run() (ok bool) {
 		if x.tr != nil {
 			x.tr.Discard()
 		}
+		if win != nil {
+			removeWindowHook(win) // before Close: the compaction goroutine may be held inside the window
+		}
 		x.db.Close()
 	}()
 	fail := func(what string, err error) {
@@ -617,6 +627,52 @@ func (x *dbExec) run() (ok bool) {
 		}
 		x.curOp = oi
 		// programs produced by shrinking may be ill-formed: skip what cannot be executed
+		if win != nil && !inWindow {
+			select {
+			case <-win.entered:
+				inWindow = true
+				x.res.Count("db_window_entered", 1)
+			default:
+			}
+		}
+		// a flush is under way: let it reach the window before anything else is written (a second rotation
+		// would wait for the flush the hook is about to hold)
+		if win != nil && !inWindow && !winDone && leveldb.VerifHasFrozenMem(x.db) {
+			// rotateMem's own trigger is dropped when the goroutine is not receiving at that instant: ask again
+			for try := 0; try < 100 && !inWindow; try++ {
+				leveldb.VerifTriggerMemFlush(x.db)
+				select {
+				case <-win.entered:
+					inWindow = true
+					x.res.Count("db_window_entered", 1)
+				case <-time.After(20 * time.Millisecond):
+				}
+			}
+		}
+		switch o.T {
+		case "window_wait":
+			if win != nil && !inWindow {
+				select {
+				case <-win.entered:
+					inWindow = true
+					x.res.Count("db_window_entered", 1)
+				case <-time.After(300 * time.Millisecond):
+				}
+			}
+			continue
+		case "window_release":
+			if win != nil {
+				removeWindowHook(win)
+				inWindow, winDone = false, true
+				leveldb.VerifWaitCompaction(x.db)
+			}
+			continue
+		case "put", "del", "batch":
+			// no write while the compaction goroutine is held inside the window (a second rotation would wait for it)
+			if inWindow {
+				continue
+			}
+		}
 		switch o.T {
 		case "put", "del", "batch", "compact", "reopen", "tr_open":
 			if x.tr != nil {
@@ -814,6 +870,15 @@ func (x *dbExec) iterNew(o op) bool {
 	is.cur = newCursor(is.exp, x.cmp)
 	is.raw = toRaw(raw)
 	x.iters[o.ID] = is
+	if x.c.Window {
+		x.res.Count("db_window_iters", 1)
+	}
+	for i := 1; i < len(is.raw); i++ {
+		if is.raw[i].Num == is.raw[i-1].Num && bytes.Equal(is.raw[i].UKey, is.raw[i-1].UKey) {
+			x.res.Count("db_iters_over_duplicate_internal_entries", 1)
+			break
+		}
+	}
 	x.byteCapture(is, strings.SplitN(o.View, ":", 2)[0], keyBefore)
 	// second oracle: the raw entries must already amount to the same pairs
 	lr, heads := liveFromRaw(is.raw, is.seq, x.cmp, o.Start, o.Limit)
